@@ -1,6 +1,6 @@
 """C08: check configuration (PROPS_ENTRY, consumed by ./check and gen_manifest.py) and the list of lemmas that make up
 the property file (SPEC_ENTRY, consumed by tools/mkprops.py)."""
-PROPS_ENTRY = {'models': ['Model/Init.v', 'Model/InitSpec.v'],
+PROPS_ENTRY = {'models': ['Model/Init.v', 'Model/InitSpec.v', 'Model/InitPci.v'],
  'design_ref': 'DESIGN.md 3 C08',
  'assumptions': ['the body of each constructor is transcribed statement by statement into the list `body d p1 p2` (Model/Init.v); the tie to the Rust source is '
                  'the correspondence check (ordered log of every Transport call / MMIO register access, every VirtQueue::new argument tuple, every dma_alloc and '
@@ -13,6 +13,16 @@ PROPS_ENTRY = {'models': ['Model/Init.v', 'Model/InitSpec.v'],
                  'release actions of a failing constructor (dealloc, unshare, queue_unset, reset on drop) are left out of the compared log: property C09',
                  'the 9p constructor is modelled as repaired by f0b6ba0 (F3 of C09): the mount tag is read before finish_init',
                  'feature-gated operations are modelled for the first request on a fresh queue against a device that completes a chain by zero-filling its writable part',
+                 'PCI (kinds 812, 854; Model/InitPci.v): lower_pci renders each Transport call with the per-operation access model of C11 (Model/Pci.v exec, '
+                 'transcribed from pci.rs and tied to it by the C11 correspondence) on a canonical transport whose four windows are 2^48 apart - that every real '
+                 'window lies inside a memory BAR is C11, not re-proved here; read_config_generation (one 8-bit read at offset 21) and read_config_space (safe-mmio '
+                 'chunks of Model/Config.v) are rendered as in C13. What the driver sees through PciTransport (pci_env): the device-specific window as whole 32-bit '
+                 'words or absent (then ConfigSpaceMissing), config_generation 8 bits, queue_size 16 bits. Hypothesis pe_ok of the PCI theorems: '
+                 'notify_off_multiplier even (PciTransport::new refuses an odd one: C11_windows) and the notification window at most 2^47 elements (its length is a '
+                 'u32 of bytes). The decoder lift_pci / order_ok_pci is written from VirtIO 1.2 4.1.3.1, 4.1.4.3, 4.1.4.4, 4.1.5.2; a single 64-bit access to '
+                 'queue_desc / queue_driver / queue_device (what the code does; 4.1.3.1 prescribes two 32-bit accesses) is accepted and recorded as an observation; '
+                 'begin_init writes device_status := 0 and continues without waiting for device_status to read 0 (4.1.4.3.2 asks for the wait on PCI; Drop does wait): '
+                 'outside the property text, recorded as an observation, not required by the automaton',
                  'VirtIO 1.2 3.1.1 step 6 (re-read the status to see that FEATURES_OK stuck) is not performed by begin_init; the property text does not ask for it and the '
                  'automaton does not require it (recorded as an observation)'],
  'trusted_extra': ['hook C08_hooks.diff (cfg virtio_drivers_verif, add-only): verif::queue_new reports the arguments of every VirtQueue::new; without it the three '
@@ -20,11 +30,14 @@ PROPS_ENTRY = {'models': ['Model/Init.v', 'Model/InitSpec.v'],
                    'harness/src/scen/drivers.rs: ApHal (records the access_platform argument of each platform call), HookT (transparent Transport wrapper scripting '
                    'per-queue answers and generation answers, device writes at queue registration, minimal reference device), FuncDev (functional virtio-mmio '
                    'register file, legacy and modern) under the real MmioTransport',
-                   'PCI transport: not run (the constructors are generic in T: Transport; PciTransport differs only below the Transport trait, property C11)',
+                   'harness/src/scen/drivers.rs PciFuncDev: functional virtio-pci function (configuration space and capabilities built with the C11 '
+                   'scenario\'s build_dev, one memory BAR holding the four structures, registers behind the selectors, per-queue queue_notify_off, '
+                   'config_generation, device configuration bytes) under the real PciTransport obtained from the real PciTransport::new; the harness attributes '
+                   'each logged BAR access to a window (common / notify / ISR / device) by the offsets the capabilities advertise',
                    'feature-gated operations are run on the model transport only']}
 
 SPEC_ENTRY = {'title': 'Every driver performs the init handshake and honours the negotiated features',
- 'imports': ['Model.Layout', 'Model.Init', 'Model.Mmio', 'Model.MmioSpec', 'Model.InitSpec', 'Model.Queue', 'Proofs.InitProofs'],
+ 'imports': ['Model.Layout', 'Model.Init', 'Model.Mmio', 'Model.MmioSpec', 'Model.InitSpec', 'Model.InitPci', 'Model.Queue', 'Proofs.InitProofs', 'Proofs.InitPciProofs'],
  'theorems': [('C08_handshake_all_drivers',
                'Proofs/InitProofs.v', 'handshake_accept',
                'for each of the eleven constructors and EVERY environment (offered word, config bytes, generation answers, per-queue answers, generic parameters, '
@@ -74,6 +87,32 @@ SPEC_ENTRY = {'title': 'Every driver performs the init handshake and honours the
               ('C08_mmio_status_order', 'Proofs/InitProofs.v', 'lower_statuses', 'the Status register receives the same values in the same order as set_status is called'),
               ('C08_begin_init_is_c10_begin_init', 'Proofs/InitProofs.v', 'begin_init_is_c10_begin_init',
                'begin_init rendered call by call equals the OBeginInit operation of the C10 transport model'),
+              ('C08_pci_handshake_all_drivers', 'Proofs/InitPciProofs.v', 'construct_pci_accept',
+               'each constructor on PciTransport, for EVERY environment and EVERY PCI function (multiplier, notification window length, queue_notify_off answers, '
+               'with or without a device-specific window, any window alignment): the accesses to the common configuration structure and the notification window '
+               '(every Transport call replaced by the accesses of the C11 model), decoded with the layout of VirtIO 1.2 4.1.4.3, are accepted by the same '
+               'automaton - device_status writes in order, the offered word read as two halves, the accepted word written as two halves before FEATURES_OK, '
+               'queue_enable := 1 between FEATURES_OK and DRIVER_OK, no write to the notification window before device_status := 15; a constructor that '
+               'returns Ok leaves device_status = 15'),
+              ('C08_pci_access_rules', 'Proofs/InitPciProofs.v', 'lower_pci_order_ok',
+               'for ANY sequence of Transport calls the accesses obey the PCI rules: natural width of every field, no write to a read-only field, queue_enable := 1 '
+               'only after the three addresses of the selected queue and never := 0, a notification is the 16-bit write of q at queue_notify_off(q) * multiplier '
+               'after that offset was read'),
+              ('C08_pci_monitor', 'Proofs/InitPciProofs.v', 'construct_pci_monitor', 'the PCI monitor (kind 854) holds of the model of every constructor'),
+              ('C08_pci_roundtrip', 'Proofs/InitPciProofs.v', 'lift_lower_pci_exact',
+               'lift_pci (lower_pci tr) = the status / feature / queue_set / notify calls of tr with their arguments, in order, for every call sequence whose '
+               'arguments fit the registers and whose notifications do not panic'),
+              ('C08_pci_constructors_fit_registers', 'Proofs/InitPciProofs.v', 'construct_pci_narrow',
+               'the calls of every constructor fit: status < 2^8, feature words < 2^64, queue sizes < 2^16 (max_queue_size is a 16-bit register on PCI)'),
+              ('C08_pci_constructor_roundtrip', 'Proofs/InitPciProofs.v', 'construct_pci_roundtrip',
+               'hence for every constructor the decoded accesses ARE its handshake calls, argument for argument'),
+              ('C08_pci_call_decoded', 'Proofs/InitPciProofs.v', 'hs_step_norm',
+               'a call the automaton accepts is still accepted after the truncation to register widths that the PCI transport applies'),
+              ('C08_pci_monitor_notify_meaning', 'Proofs/InitPciProofs.v', 'pci_monitor_notify_meaning',
+               'what a true verdict of monitor 854 means on ANY observed access sequence: before every write to the notification window the last 8-bit write to '
+               'device_status contained DRIVER_OK'),
+              ('C08_pci_monitor_enable_meaning', 'Proofs/InitPciProofs.v', 'pci_monitor_enable_meaning',
+               '... and every write to queue_enable writes 1, after a device_status write with FEATURES_OK and before one with DRIVER_OK'),
               ('C08_monitor_notify_meaning', 'Proofs/InitProofs.v', 'hs_notify_sound', 'what a true verdict of the automaton means on ANY (in particular an observed) log'),
               ('C08_monitor_queue_set_meaning', 'Proofs/InitProofs.v', 'hs_queue_set_sound', None),
               ('C08_monitor_features_meaning', 'Proofs/InitProofs.v', 'hs_features_sound', None),
@@ -93,6 +132,26 @@ SPEC_ENTRY = {'title': 'Every driver performs the init handshake and honours the
               '  fst (construct DConsole (mkEnv Debug TKModel false 0 [] [] [mkQa false 256 0x40000000 0x40008000 0 0; mkQa true 256 0 0 0 0] 0 0 true))\n'
               '  = Err EAlreadyUsed.\n'
               'Proof. exact failing_constructor_example. Qed.',
+              'Example C08_pci_constructors_succeed_nonvacuous :\n'
+              '  forallb (fun d => is_ok (fst (construct_pci d pe_plain (env_good 0x330000225)))\n'
+              '                    && list_eqb_N (pci_statuses (paccs_of (snd (construct_pci d pe_plain (env_good 0x330000225))))) [0; 3; 11; 15]\n'
+              '                    && negb (fst (lower_pci Debug pe_plain (e_cfg (pci_env pe_plain (env_good 0x330000225)))\n'
+              '                                            (snd (construct d (pci_env pe_plain (env_good 0x330000225)))))))\n'
+              '          all_drivers = true /\\ pe_ok pe_plain = true.\n'
+              'Proof. split; [exact pci_constructors_succeed|exact pe_plain_ok]. Qed.',
+              'Example C08_pci_notify_panic_nonvacuous :\n'
+              '  fst (construct_pci DInput (mkPe 2 4 [7; 0] true 35184372097024) (env_good 0)) = Panic\n'
+              '  /\\ existsb (fun a => p_win a =? WIN_NOTIFY) (paccs_of (snd (construct_pci DInput (mkPe 2 4 [7; 0] true 35184372097024) (env_good 0)))) = false.\n'
+              'Proof. exact pci_notify_panic_example. Qed.',
+              'Example C08_pci_monitor_rejects_nonvacuous :\n'
+              '  pci_handshake_b (supported DRng) 0x100000000 4 false\n'
+              '       (hs_head ++ [mkP 0 true 8 4 0; mkP 0 true 12 4 0; mkP 0 true 8 4 0; mkP 0 true 12 4 1] ++ [mkP 0 true 20 1 11]) = false\n'
+              '  /\\ pci_handshake_b (supported DRng) 0x100000000 4 false\n'
+              '       (hs_head ++ hs_feat ++ [mkP 0 true 20 1 11; mkP 0 true 22 2 0; mkP 0 true 24 2 8; mkP 0 true 28 2 1;\n'
+              '                               mkP 0 true 32 8 4096; mkP 0 true 40 8 8192; mkP 0 true 48 8 12288]) = false\n'
+              '  /\\ pci_handshake_b (supported DRng) 0x100000000 4 false\n'
+              '       (hs_head ++ hs_feat ++ [mkP 0 true 20 1 11; mkP 0 true 22 2 0; mkP 0 false 30 2 0; mkP 1 true 0 2 0]) = false.\n'
+              'Proof. pose proof pci_monitor_rejects as H. repeat split; apply H. Qed.',
               'Example C08_mmio_nonvacuous :\n'
               '  fst (construct_mmio DRng (mkEnv Release TKMmioLegacy false 0x30000000 [] [] (good_qans 1) 0 0 true)) = Ok 0\n'
               '  /\\ status_writes (accesses_of (snd (construct_mmio DRng (mkEnv Release TKMmioLegacy false 0x30000000 [] [] (good_qans 1) 0 0 true))))\n'
